@@ -132,6 +132,9 @@ def gen_world(rng, large=False):
         dom["ny"] += dom["ny"] % 2
     solver = {"closure": rng.choice(["MOST", "MOST", "CONSTANT", "MOSTM"] + (["OAAHOC"] if forcing == "ustar" else [])), "footprint": footprint, "precision": rng.choice(["double"] * 4 + ["single"]),
               "surface_flux_shape": rng.choice(["diamond", "circle", "point"])}
+    if not footprint and rng.random() < 0.5:
+        # an ideal source away from the domain centre
+        solver["src_loc"] = [round(rng.choice([0.25, 0.3, 0.7]) * dom["xmax"], 3), round(rng.choice([0.3, 0.6]) * dom["ymax"], 3)]
     if solver["closure"] == "MOSTM":
         # no diffusion along the flow: needs a wind that is not axis aligned
         wd = met["wind_dir"]
@@ -150,6 +153,22 @@ def gen_world(rng, large=False):
             t["lat"], t["lon"] = 0.0, 0.0
         if colocated:
             xy[1] = list(xy[0])
+    if rng.random() < 0.02:
+        # nothing to do: no towers, or a series of zero steps - the drivers
+        # return the (empty) collection of the (zero) single runs
+        if rng.random() < 0.5:
+            towers, nt, xy = [], 0, None
+            colocated = False
+        else:
+            ns = 0
+            for k2, v in list(met.items()):
+                if k2 == "timestamps":
+                    met[k2] = []
+                elif k2 == "z0":
+                    continue
+                else:
+                    met[k2] = []
+            repeated = False
     world = {"config": {"domain": dom, "towers": towers, "met": met, "solver": solver, "parallel": par}, "tower_xy": xy,
              "flux_seed": rng.randrange(1000), "n_towers": nt, "n_steps": ns, "colocated": colocated, "repeated": repeated}
     return world
@@ -169,8 +188,10 @@ def generate(seed, tier="quick"):
                         "max_workers": gen.choice([None, 1, 2, 3, 4, 5] + ([6, 8] if large else []))})
         elif r < 0.85:
             ops.append({"op": "multitower", "flux": gen.random() < 0.4})
-        else:
+        elif world["n_towers"] > 0:
             ops.append({"op": "timeseries", "tower": gen.randrange(world["n_towers"]), "flux": gen.random() < 0.4})
+        else:
+            ops.append({"op": "multitower", "flux": False})
     for o in ops[1:]:
         # later driver calls may use a sub-configuration (other towers / fewer steps)
         if gen.random() < 0.5:
@@ -441,9 +462,9 @@ class Run:
         p = rec["parent"]
         bcfg.NUM_THREADS = p["threads"]
         try:
-            if p["presolve"] == "same":
+            if p["presolve"] == "same" and cfg.towers and cfg.met.n_timesteps > 0:
                 bi.run_bldfm_single(cfg, cfg.towers[0], met_index=0)
-            elif p["presolve"] == "other":
+            elif p["presolve"] in ("other", "same"):
                 from bldfm.solver import steady_state_transport_solver as solve
 
                 z = np.linspace(0.1, 4.0, 5)
